@@ -32,7 +32,7 @@ def rust_leg(tier, seed, out: Outcome):
         import random
         rnd = random.Random(seed)
         f6 = [d for d in descs if d.family == 'F6']
-        keep = [d for d in f6 if any(d.id.startswith(f'f6_w{w}_') for w in (1, 3, 8, 9, 32, 64))]
+        keep = [d for d in f6 if any(d.id.startswith(f'f6_w{w}_') for w in (1, 3, 8, 9, 24, 40, 64))]
         rest = [d for d in f6 if d not in keep]
         descs = keep + rnd.sample(rest, min(4, len(rest))) + [d for d in descs if d.family == 'R'][:1]
     with ThreadPoolExecutor(16) as ex:
